@@ -469,7 +469,7 @@ TAILS = {
 
 
 # stand-ins of spec/Server.tla for characters TLA+ sources cannot spell -> the bytes on the wire
-STANDINS = {NUL_PLACEHOLDER: b"\x00", "^": "\u00b2".encode(), "`": "\u0663".encode(), "@": "\u00e9".encode()}
+STANDINS = {NUL_PLACEHOLDER: b"\x00", "^": "\u00b2".encode(), "`": "\u0663".encode(), "*": "\u00e9".encode()}
 
 
 def concretise(line: str, tail: str) -> bytes:
